@@ -126,6 +126,41 @@ func judge(r *core.Run, sc *sims.Scenario, out *sims.Outcome) {
 	}
 }
 
+// hollowFetcher: a caller-written fetcher that answers a distribution point
+// with (nil, nil) or with a bundle that has no base list. That is the caller's
+// defect, and what the library does about it (an error, Unknown, even a panic)
+// is not settled - except that such a point has not "given an authentic,
+// current CRL": the certificate must not come out OK.
+func hollowFetcher(r *core.Run) {
+	for _, how := range []string{"nil", "empty"} {
+		for _, behs := range [][]string{{"clean"}, {"clean", "clean"}, {"clean", "clean", "clean"}, {"delta-ok", "clean"}} {
+			for at := range behs {
+				for _, withST := range []bool{false, true} {
+					sc := scenario(config{CAKind: "p256", Route: "fetcher", Len: 2, Entry: "validate", WithST: withST}, behs)
+					env := sc.Prepare()
+					env.Fetcher.Hollow = map[string]string{sc.Family().URL(0, "d", at, "http"): how}
+					out := env.Run(context.Background())
+					r.Eval(1)
+					desc := fmt.Sprintf("caller's fetcher returns (%s bundle, no error) for point %d of %v, signing time %v", how, at, behs, withST)
+					r.Nontrivial("hollow " + desc)
+					switch {
+					case out.Stuck:
+						r.Inconclusive("a call did not return within the watchdog: " + desc)
+					case out.Panic != nil:
+						r.Count("hollow-fetcher-panicked", 1)
+					case out.Err != nil || len(out.Results) != sc.Len || out.Results[0] == nil:
+						r.Count("hollow-fetcher-error", 1)
+					case out.Results[0].Result.String() == "OK":
+						r.Violation("ok-with-hollow-bundle:"+how, desc+": certificate 0 came out OK ("+sims.CanonString(sims.Canon(out.Results))+")", desc)
+					default:
+						r.Count("hollow-fetcher-not-ok", 1)
+					}
+				}
+			}
+		}
+	}
+}
+
 // culprit names the first point that is not a clean one.
 func culprit(sc *sims.Scenario) string {
 	for _, b := range sc.Plans[0].CRL {
@@ -291,6 +326,8 @@ func run(r *core.Run) int {
 		"non-trivial = some point is not clean, or a delta is present, or the certificate carries a freshest-CRL pointer; distinct by scenario descriptor"
 	r.Assume("CRL nextUpdate instants are 2001 or 2096")
 	r.Assume("an unknown critical extension on an entry for ANOTHER serial admits both OK and Unknown (C10 says other serials never matter, C05 says no unknown critical extension at entry level)")
+	r.Assume("a caller-written fetcher that returns no error and no base list is the caller's defect: anything but OK is admitted for that certificate (a panic included, only counted)")
+	hollowFetcher(r)
 	type job struct {
 		c    config
 		behs []string
